@@ -1,6 +1,11 @@
 //! Native replay of a Kani counterexample: argv = harness name, then one hex string per kani::any() value.
+#[cfg(not(kani))]
 use std::panic::{catch_unwind, AssertUnwindSafe};
 
+#[cfg(kani)]
+fn main() {}
+
+#[cfg(not(kani))]
 fn main() {
     let args: Vec<String> = std::env::args().collect();
     let name = &args[1];
